@@ -54,6 +54,37 @@ def run(ctx):
     lean_obligations(ctx, MODULE, THEOREMS)
     rng = ctx.rng
 
+    # ---------------- engine `hess.screen`: the outlier screen treats the entries of the Hessian independently -------------------------
+    # (theorem bestEstimate_columnwise: the model's screen works on one column at a time; here the implementation's screen on a table
+    # (steps x entries) with NaN rows — a function that is undefined at the largest steps — against the same screen on each column alone)
+    engs = ctx.engine('hess.screen')
+    try:
+        from numdifftools.limits import _Limit as _L
+        screen = _L._add_error_to_outliers
+    except (ImportError, AttributeError):
+        screen = None
+        ctx.notes.append('attachment point _Limit._add_error_to_outliers not found: engine hess.screen skipped')
+    for _ in range(ctx.budget(60, 600) if screen is not None else 0):
+        nr, nc = rng.randint(3, 12), rng.randint(2, 6)
+        mags = [10.0 ** rng.uniform(-3, 3) * rng.choice([-1, 1]) for _ in range(nc)]
+        der = np.array([[mags[j] * (1 + rng.choice([1e-9, 1e-3, 0.3, 5.0]) * rng.uniform(-1, 1)) for j in range(nc)] for _ in range(nr)])
+        for j in range(nc):
+            if rng.random() < 0.6:
+                der[:rng.randint(1, nr - 1), j] = np.nan          # the largest steps left the domain for this entry
+        engs['cases'] += 1
+        ctx.count('hess.screen', 'nan-rows' if np.isnan(der).any() else 'finite')
+        try:
+            with warnings.catch_warnings():
+                warnings.simplefilter('ignore')
+                whole = np.asarray(screen(der.copy()))
+                alone = np.column_stack([np.asarray(screen(der[:, [j]].copy()))[:, 0] for j in range(nc)])
+        except Exception as ex:
+            ctx.mismatch('hess.screen', der.tolist(), 'raised %r' % ex, 'column by column')
+            continue
+        if whole.shape == alone.shape and np.array_equal(whole, alone, equal_nan=True):
+            engs['exact'] += 1
+        else:
+            ctx.mismatch('hess.screen', der.tolist(), whole.tolist(), alone.tolist(), 'penalties of the table vs penalties column by column')
     # ---------------- engine `hess.cells`: the real-step difference functions on dyadic data vs the Rat model (exact) ------------
     eng = ctx.engine('hess.cells')
     cases = []
@@ -270,6 +301,43 @@ def run(ctx):
         elif not (np.array_equal(first_h, last_h) and np.array_equal(first_d, last_d)):
             ctx.violation('a repeated Hessian / Hessdiag evaluation with the same generator differs from the first one',
                           first=np.ravel(first_h).tolist(), last=np.ravel(last_h).tolist(), first_diag=first_d.tolist(), last_diag=last_d.tolist(), **rep)
+    # ---- a function whose domain ends close to x (c log x_k with x_k in 0.2 .. 0.6: the largest default steps give NaN for the entries that
+    # involve x_k, the others are unaffected): worst error / (1 + max|H|) on the unchanged tree over 1200 cases: backward 6.1e-6, central
+    # 3.9e-11; envelope 30 x that
+    LOGB_WORST = {'backward': 6.2e-6, 'central': 4e-11}
+    worst_lb = 0.0
+    for it in range(ctx.budget(120, 1200)):
+        n = rng.randint(2, 4)
+        meth = rng.choice(['backward', 'central', 'backward'])
+        a, b = np.array([rng.uniform(-1, 1) for _ in range(n)]), np.array([rng.uniform(-1.5, 1.5) for _ in range(n)])
+        Q = np.array([[rng.randint(-8, 8) / 4 for _ in range(n)] for _ in range(n)])
+        Q = (Q + Q.T) / 2
+        k, c = rng.randrange(n), rng.uniform(0.5, 3)
+        x = np.array([rng.uniform(0.5, 2) for _ in range(n)])
+        x[k] = rng.uniform(0.2, 0.6)
+
+        def f(t, a=a, b=b, Q=Q, k=k, c=c):
+            with np.errstate(all='ignore'):
+                return np.exp(a @ t) + np.sin(b @ t) + 0.5 * (t @ Q @ t) + c * np.log(t[k])
+        exact = np.exp(a @ x) * np.outer(a, a) - np.sin(b @ x) * np.outer(b, b) + Q
+        exact[k, k] -= c / x[k] ** 2
+        ctx.tried(('log-boundary', n, meth, tuple(x[:2])))
+        rep = dict(n=n, method=meth, x=x.tolist(), a=a.tolist(), b=b.tolist(), Q=Q.tolist(), log_term=[k, c])
+        try:
+            with warnings.catch_warnings():
+                warnings.simplefilter('ignore')
+                H = nd.Hessian(f, method=meth)(x)
+        except Exception as ex:
+            ctx.violation('Hessian raised %r on a function that is undefined at the largest steps' % ex, **rep)
+            continue
+        e = float(np.max(np.abs(H - exact))) / (1 + float(np.abs(exact).max()))
+        worst_lb = max(worst_lb, e / LOGB_WORST[meth])
+        if not np.array_equal(H, H.T):
+            ctx.violation('Hessian is not exactly symmetric', hessian=H.tolist(), **rep)
+        elif not e <= 30 * LOGB_WORST[meth]:
+            ctx.violation('Hessian of a function whose domain ends close to x (NaN at the largest steps) is outside the accuracy envelope',
+                          hessian=np.ravel(H).tolist(), exact=np.ravel(exact).tolist(), error_over_scale=e, envelope=30 * LOGB_WORST[meth], **rep)
+    ctx.notes.append('Hessian next to the boundary of the domain: worst error / calibrated worst = %.3g (envelope 30)' % worst_lb)
     # ---- default configuration (no step argument at all): what most users run; calibrated envelope per method / order
     worst_d = 0.0
     for it in range(ctx.budget(60, 600)):
